@@ -667,6 +667,8 @@ class TimeoutHandler(PoolThread):
         ), (None, None))
 
     def on_soft_timeout(self, job):
+        if job.ready():
+            return
         debug('soft time limit exceeded for %r', job)
         process, _index = self._process_by_pid(job._worker_pid)
         if not process:
